@@ -482,22 +482,6 @@ func (ex *exec) call(st *State, x *ssa.Call) {
 			}
 		}
 	}
-	if (ex.useEval || fc.mentions("evalcount(")) && !fc.Pure {
-		// (also when only the callee's contract speaks about the counts: its postcondition relates the count after
-		// the call to the count before it, so the two must be different versions)
-		eh := vc.evalCountHeap()
-		if strings.HasPrefix(key, "functype:") && fc.HasAssigns {
-			// a call through a function value under a function-type contract: counted
-			before := vc.heapGet(pre, eh)
-			f := ex.val(c.Value).T
-			vc.heapSet(st, eh, "(store "+before+" "+f+" (+ (select "+before+" "+f+") 1))")
-		} else {
-			// any other impure callee may call function values itself: the counts can only grow
-			before := vc.heapGet(pre, eh)
-			after := vc.heapHavoc(st, eh)
-			vc.addLine("(assert (forall ((f! Int)) (! (>= (select " + after + " f!) (select " + before + " f!)) :pattern ((select " + after + " f!)))))")
-		}
-	}
 	// results
 	var results []Val
 	var rs *readSet
@@ -520,6 +504,39 @@ func (ex *exec) call(st *State, x *ssa.Call) {
 		n := vc.freshConst("r_"+shortName(key), vc.sorts.sortOf(rt))
 		vc.assume("true", vc.sorts.typeInv(rt, n, st.nextRef))
 		results = append(results, Val{T: n, S: vc.sorts.sortOf(rt), Typ: rt})
+	}
+	if (ex.useEval || fc.mentionsEval()) && !fc.Pure {
+		// (also when only the callee's contract speaks about the counts: its postcondition relates the count after
+		// the call to the count before it, so the two must be different versions)
+		f := ""
+		if strings.HasPrefix(key, "functype:") && fc.HasAssigns {
+			f = ex.val(c.Value).T
+		}
+		for _, eh := range vc.evalHeaps() {
+			before := vc.heapGet(pre, eh)
+			if f == "" {
+				// any other impure callee may call function values itself: the counts can only grow
+				after := vc.heapHavoc(st, eh)
+				vc.addLine("(assert (forall ((f! Int)) (! (>= (select " + after + " f!) (select " + before + " f!)) :pattern ((select " + after + " f!)))))")
+				continue
+			}
+			// a call through a function value under a function-type contract: counted (and, when it returns one
+			// boolean, counted by outcome as well)
+			inc := "1"
+			if eh.name != "HG_evalcount" {
+				if len(results) != 1 || results[0].S != SBool {
+					after := vc.heapHavoc(st, eh)
+					vc.addLine("(assert (forall ((f! Int)) (! (>= (select " + after + " f!) (select " + before + " f!)) :pattern ((select " + after + " f!)))))")
+					continue
+				}
+				if eh.name == "HG_evaltrue" {
+					inc = "(ite " + results[0].T + " 1 0)"
+				} else {
+					inc = "(ite " + results[0].T + " 0 1)"
+				}
+			}
+			vc.heapSet(st, eh, "(store "+before+" "+f+" (+ (select "+before+" "+f+") "+inc+"))")
+		}
 	}
 	post := mkEnv(st, pre)
 	post.results = results
